@@ -19,9 +19,10 @@ CONSTANTS Depth, KeepHist,
           ForeignKinds      \* which foreign files may be written (all eight in G / V runs; M runs keep two malformed ones)
 Fields == {"group", "quality"}
 Ids == {0, 2}
-\* mappings id -> value token ("none" = None); value tokens: i3, f15, good, i7
+\* mappings id -> value token ("none" = None); value tokens: i3, f15, good, i7, f4, big
 Mappings == { [x \in Ids |-> IF x = 0 THEN "i3" ELSE "good"], [x \in Ids |-> IF x = 0 THEN "none" ELSE "f15"],
-              [x \in Ids |-> "none"], [x \in {2} |-> "i7"] }
+              [x \in Ids |-> "none"], [x \in {2} |-> "i7"],
+              [x \in Ids |-> IF x = 0 THEN "f4" ELSE "big"] }      \* f4 = 4.0 (a float, not 4); big = 2^53 + 1 (exactly)
 Versions == {"v1", "v2"}
 AllForeignKinds == {"valid", "multi", "samefield", "empty", "garbage", "headeronly", "shortrow", "info"}
 \* well-formed foreign files and what they contribute: "valid" has one value column; "multi" has two value
